@@ -5,7 +5,9 @@ Mode H (explicit-state search over operation histories of the real code):
      (module globals, class attributes, function defaults, live objects) -- every state is a live forked process;
   2. across families, every ordered pair (A, B) of compound operations (new+call) of the whole alphabet, in the two
      interleavings [new A, call A, new B, call B] and [new B, new A, call A, call B];
-  3. batch independence: all non-empty subsets of a 5-point base set, all orderings of a 4-subset, a duplicate, a
+  3. neighbour histories: every family of the hydro catalogue, default configuration and each of its one-deviation
+     neighbours, in both orders (cache keys that omit one parameter);
+  4. batch independence: all non-empty subsets of a 5-point base set, all orderings of a 4-subset, a duplicate, a
      superset with a far point.
 Oracle (differential, no expected values): every call observes bit-for-bit what the same call observes when made first
 in a genuinely fresh interpreter after only its own constructor (and its own slot's mutators).
@@ -162,6 +164,8 @@ def tasks(tier, seed):
         out.append({"kind": "pairs", "second": j, "tier": tier})
     for b in BATCH_SOLVERS:
         out.append({"kind": "batch", "solver": b[0], "tier": tier})
+    for fam in neighbour_families(tier):
+        out.append({"kind": "neighbours", "family": fam, "tier": tier})
     if tier == "thorough":
         for word in ("AA", "AB", "BA", "BB"):
             out.append({"kind": "guderley_raw", "word": word, "tier": tier})
@@ -440,8 +444,84 @@ def run_guderley_raw(task):
     return res
 
 
+# ---------------------------------------------------------------------------------------------------------------
+# neighbour histories: a configuration and each of its ONE-deviation neighbours, in both orders.  Two configurations
+# that differ in every parameter (the family alphabets above) cannot expose a value cached under a key that omits one
+# parameter; two that differ in exactly one can (seeded changes S-C11-2: quadratures cached without gamma; S-C09-2:
+# isentrope cached without the velocity).
+# ---------------------------------------------------------------------------------------------------------------
+NEIGHBOUR_SKIP = {"Guderley"}                                   # 3-20 ms per point and minutes per exponent: covered by its family
+NEIGHBOUR_THOROUGH_ONLY = {"ED_Solver", "nED_Solver", "ie_Solver"}   # 1-2.5 s per construction
+NEIGHBOUR_POINTS = {"Sedov": [0.2, 0.5, 0.8, 1.1, 1.6], "Mader": [0.5, 1.5, 2.5, 3.5, 4.5], "EPpiston": [0.1, 0.3, 0.5, 0.8, 3.0]}
+
+
+def neighbour_families(tier):
+    from xpmc import hydro, hydro_more  # noqa: F401
+    out = []
+    for f in hydro.FAMILIES:
+        n = f["name"]
+        if n in NEIGHBOUR_SKIP or (tier == "quick" and n in NEIGHBOUR_THOROUGH_ONLY):
+            continue
+        if f.get("domain") is None and n not in NEIGHBOUR_POINTS:
+            continue
+        out.append(n)
+    return out
+
+
+def _neighbour_ops(f, cfg, slot):
+    from xpmc import hydro
+    t = f["times"](cfg)[0]
+    if f["name"] in NEIGHBOUR_POINTS:
+        pts = NEIGHBOUR_POINTS[f["name"]]
+    else:
+        a, b = f["domain"](cfg, t)
+        pts = [float(x) for x in hydro.base_lattice(a, b, 5)]
+    return [new(slot, "hydro:" + f["name"], **cfg), call(slot, pts, t)]
+
+
+def run_neighbours(task):
+    import props.C06_ops as opsmod
+    from xpmc import hydro, hydro_more, lattice  # noqa: F401
+    f = hydro.by_name(task["family"])
+    res = {"evals": 0, "nontrivial": [], "violations": [], "counters": {}, "sample": None, "states": 0, "transitions": 0}
+    dg = Digest()
+    alpha = f["alphabet"]
+    cfg0 = lattice.full_cfg(alpha, {})
+    ops0 = _neighbour_ops(f, cfg0, "base")
+    ref0 = history.run_in_fork(opsmod, ops0)[-1]["obs"]
+    devs = lattice.enumerate_checked(alpha, 1)[1:]
+    for dev in devs:
+        cfg1 = lattice.full_cfg(alpha, dev)
+        try:
+            ops1 = _neighbour_ops(f, cfg1, "nbr")
+        except Exception:
+            res["counters"]["neighbour_vectors_without_lattice"] = res["counters"].get("neighbour_vectors_without_lattice", 0) + 1
+            continue
+        ref1 = history.run_in_fork(opsmod, ops1)[-1]["obs"]
+        for order, ops, ref, who in (("base-then-neighbour", ops0 + ops1, ref1, "neighbour"), ("neighbour-then-base", ops1 + ops0, ref0, "base")):
+            out = history.run_in_fork(opsmod, ops)
+            obs = out[-1]["obs"]
+            res["evals"] += 2
+            res["states"] += 1
+            res["transitions"] += len(ops)
+            dg.add(json.dumps(dev, sort_keys=True), order, obs.get("digest"))
+            if obs.get("kind") == "val":
+                res["nontrivial"].append("nbr|%s|%s|%s" % (f["name"], sorted(dev.items()), order))
+            diff = compare(obs, ref)
+            if diff is not None:
+                res["violations"].append(_viol(f["name"], "neighbour:call-after-one-deviation-neighbour-differs-from-first-call",
+                                               {"deviation": dev, "order": order, "judged": who}, diff.get("max_rel_diff", 1.0),
+                                               {"diff": diff}))
+    res["counters"]["neighbour_vectors"] = len(devs)
+    res["sample"] = {"family": f["name"], "neighbours": len(devs), "example": {"base": cfg0, "neighbour": lattice.full_cfg(alpha, devs[0]) if devs else None}}
+    res["digest"] = dg.hex()
+    return res
+
+
 def run_task(task):
     k = task["kind"]
+    if k == "neighbours":
+        return run_neighbours(task)
     if k == "family":
         return run_family(task)
     if k == "pairs":
